@@ -44,6 +44,11 @@ func genValueListOver(r *rand.Rand, n int, ifaces bool, uniqueTypedType bool, po
 		}
 		if r.Intn(3) == 0 {
 			l.Sub = pick(r, []string{"x", "y"})
+			if r.Intn(5) == 0 {
+				// free-form subtypes (media types, versions, key=value): anything
+				// without a comma or a quote is legal in a tag option
+				l.Sub = pick(r, []string{"application/vnd.api+json", "a+b", "v1.2", "k=v", "two words", "50%", "ü/ö", "a:b;c"})
+			}
 		}
 		if l.Name != "" {
 			if usedN[l.Name] {
